@@ -244,7 +244,8 @@ def make_hedger(rng, derivative, n_hedges, model_kind=None, dtype=None, criterio
     else:
         inputs = make_features(rng, derivative)
         if model_kind in ("mlp_prev", "recurrent"):
-            inputs = inputs + ["prev_hedge"]
+            # the previous hedge either as the plain feature or passed through a (parameter-free) module-output feature
+            inputs = inputs + (["prev_hedge"] if rng.random() < 0.75 else [ModuleOutput(torch.nn.Identity(), ["prev_hedge"])])
         n_in = len(inputs) + (n_hedges - 1 if model_kind in ("mlp_prev", "recurrent") else 0)
         if model_kind == "linear":
             model = torch.nn.Linear(n_in, n_hedges)
@@ -267,6 +268,19 @@ def make_hedger(rng, derivative, n_hedges, model_kind=None, dtype=None, criterio
                 f_.to(dtype)  # FeatureList is not a Module: Hedger.to() does not reach module-output features
     hedger._pfv_kind = model_kind
     return hedger
+
+
+def sibling(hedger, rng):
+    """A second hedger built on the very same feature objects (the usual way of comparing two models on one feature set)."""
+    import copy
+
+    model = copy.deepcopy(hedger.model)
+    with torch.no_grad():
+        for p in model.parameters():
+            p.add_(torch.as_tensor(rng.standard_normal(tuple(p.shape)) * 0.3).to(p))
+    sib = Hedger(model, list(hedger.inputs.features), criterion=copy.deepcopy(hedger.criterion))
+    sib._pfv_kind = getattr(hedger, "_pfv_kind", None)
+    return sib
 
 
 def fname(f):
